@@ -59,7 +59,7 @@ def tighter_when_before(left, right):
 
 def chains_with(left, right):
     fl, fr = left["fam"], right["fam"]
-    if fl in ("cmp", "zip", "cart") and fl == fr:
+    if fl in ("cmp", "zip", "cart", "fan", "par") and fl == fr:
         return True
     return False
 
@@ -146,7 +146,7 @@ def paren(t, leaf_src, ops_by_id):
         return None
     if len(oplist) == 1:
         return "(%s %s %s)" % (parts[0], oplist[0]["name"], parts[1])
-    if oplist[0]["fam"] in ("zip", "cart"):
+    if oplist[0]["fam"] in ("zip", "cart", "fan", "par"):
         return "%s(%s)" % (oplist[0]["name"], ", ".join(parts))
     return None  # comparison chains have no call form
 
@@ -170,6 +170,10 @@ def build_prelude(ops_decl):
             pre.append("%s := zip" % name)
         elif d["fam"] == "cart":
             pre.append("%s := **" % name)
+        elif d["fam"] == "fan":
+            pre.append("%s := &&&" % name)
+        elif d["fam"] == "par":
+            pre.append("%s := ***" % name)
         form = d.get("pform", 0)
         if form == 1:
             # the precedence reached through an operator-assignment (the slot is read, dropped, recomputed and written back)
@@ -273,6 +277,68 @@ def check_chain(nl, case, ctx=None):
     return None
 
 
+def fan_apply(t, x):
+    """value of (function denoted by tree t)(x): leaves tag their argument, &&& fans one argument out, *** applies
+    position-wise to a sequence of exactly as many items"""
+    if t[0] == "leaf":
+        return [t[1], x]
+    _, oplist, children = t
+    if oplist[0]["fam"] == "fan":
+        return [fan_apply(c, x) for c in children]
+    if not isinstance(x, list) or len(x) != len(children):
+        raise TypeError("*** needs a sequence of %d" % len(children))
+    return [fan_apply(c, xi) for c, xi in zip(children, x)]
+
+
+def check_fan(nl, case, ctx=None):
+    """chains of &&& / *** copies over tagging functions, applied to one argument"""
+    decl = case["decl"]
+    for nm, d in decl.items():
+        d["name"] = nm
+    ops = [decl[n] for n in case["chain"]]
+    n = len(ops)
+    tree = simulate(ops, n + 1)
+    x = case["x"]
+    try:
+        want = ("ok", fan_apply(tree, x))
+    except TypeError:
+        want = ("err", None)
+    leaf_src = ["(\\v -> [%d, v])" % i for i in range(n + 1)]
+    direct = " ".join([leaf_src[0]] + ["%s %s" % (o["name"], leaf_src[i + 1]) for i, o in enumerate(ops)])
+    srcs = [("direct", "(%s)(%s)" % (direct, render(x)))]
+    p = paren(tree, leaf_src, decl)
+    if p is not None:
+        srcs.append(("parenthesised", "(%s)(%s)" % (p, render(x))))
+    prelude = build_prelude(decl)
+    res = nl.run(prelude + [s_ for _, s_ in srcs], fuel=300_000, timeout=40, stop_on_panic=True)
+    np_ = len(prelude)
+    for s_, r in zip(prelude, res[:np_]):
+        if r["status"] != "ok":
+            raise GeneratorBug("prelude %r failed: %s" % (s_, r))
+    table = ", ".join("%s:%s" % (nm, d["prec"]) for nm, d in sorted(decl.items()))
+    if ctx is not None:
+        nt = any(len(t[1]) > 1 for t in walk(tree)) or len({o["fam"] for o in ops}) > 1
+        ctx.count(srcs[0][1] + " | " + table, nt, "fan:n%d:%s" % (n, "+".join(sorted({o["fam"] for o in ops}))))
+        if nt:
+            ctx.sample({"chain": srcs[0][1], "precedence": table})
+    sig = "C03:%s:n%d" % ("+".join(sorted({o["fam"] for o in ops})), n)
+    for (label, src), r in zip(srcs, res[np_:]):
+        if r["status"] == "parse_error":
+            raise GeneratorBug("does not parse: %s" % src)
+        if r["status"] == "panic":
+            return Fail(sig + ":panic", "%s with %s panicked: %s" % (src, table, r.get("panic")))
+        if want[0] == "err":
+            if r["status"] != "err":
+                return Fail(sig + ":" + label + ":should_raise", "%s with precedences %s: the reference grouping %s cannot be applied to this argument, got %s" % (src, table, show(tree), r.get("value")))
+            continue
+        if r["status"] != "ok":
+            return Fail(sig + ":" + label + ":raised", "%s with precedences %s raised %r; reference grouping %s" % (src, table, r.get("msg"), show(tree)))
+        got = norm(r["value"])
+        if got != mcanon(want[1]):
+            return Fail(sig + ":" + label, "%s with precedences %s = %s; reference grouping %s gives %s" % (src, table, got, show(tree), mcanon(want[1])))
+    return None
+
+
 def show(t):
     if t[0] == "leaf":
         return "e%d" % t[1]
@@ -334,7 +400,7 @@ TEMPLATES = {
     "zip_with": {"l": "zip", "r": "with", "a": "[1, 2]", "b": "[10, 20]", "c": "+", "third": "+.", "d": "5"},
 }
 
-CHECKS = {"chain": check_chain, "template": check_template}
+CHECKS = {"chain": check_chain, "template": check_template, "fan": check_fan}
 
 # ---- generators ---------------------------------------------------------------------------------------------
 
@@ -387,6 +453,17 @@ def s_zip_case():
                      st.lists(st.integers(0, 5), min_size=2, max_size=4), st.lists(lst, min_size=5, max_size=5))
 
 
+def s_fan_case():
+    def mk(fams, precs, picks, x):
+        decl = {"%s%d" % ("fa" if f == "fan" else "pa", i): {"fam": f, "assoc": "L", "prec": p} for i, (f, p) in enumerate(zip(fams, precs))}
+        names = sorted(decl)
+        chain = [names[p % len(names)] for p in picks]
+        return {"decl": decl, "chain": chain, "x": x}
+    xs = st.sampled_from([5, [1, 2], [1, 2, 3], [[1, 2], [3, 4]], [[1, 2], 3], [1, [2, 3]], [[1, 2, 3], [4, 5]], [[[1, 2], 3], 4]])
+    return st.builds(mk, st.lists(st.sampled_from(["fan", "par"]), min_size=1, max_size=3), st.lists(st.sampled_from([0.0, 0.0, 0.0, 1.0, 5.0, -2.0]), min_size=3, max_size=3),
+                     st.lists(st.integers(0, 5), min_size=1, max_size=4), xs)
+
+
 def weak_orders(k):
     """all assignments of k operators to precedence levels, up to order-isomorphism"""
     seen = set()
@@ -429,3 +506,4 @@ def worker(ctx):
     ctx.hyp(s_tree_case(), lambda c: ctx.check("chain", c), ctx.share(ctx.scale(2500, 80000)), label="c03t")
     ctx.hyp(s_cmp_case(), lambda c: ctx.check("chain", c), ctx.share(ctx.scale(1500, 40000)), label="c03c")
     ctx.hyp(s_zip_case(), lambda c: ctx.check("chain", c), ctx.share(ctx.scale(1000, 30000)), label="c03z")
+    ctx.hyp(s_fan_case(), lambda c: ctx.check("fan", c), ctx.share(ctx.scale(1200, 30000)), label="c03f")
